@@ -4,6 +4,7 @@ from concurrent.futures import ThreadPoolExecutor
 from .. import core, pipe, reprgen as RG
 from .c03 import report_compile_failures
 
+from ..core import COMMON_DIMENSIONS
 PROP = "C06"
 SIZES = dict(quick=dict(sample=260, mcV=4), thorough=dict(sample=4000, mcV=5))
 
@@ -123,6 +124,8 @@ def run(tier, seed, rep):
                        "reprs are swept over EVERY d, wider ones probed at every discriminant +-1, 0, MIN, MAX, anchor +-32 and random values; "
                        "`v as R` / the tag read through a pointer validates the specification's Discr against rustc; distinct_nontrivial = "
                        "number of Some(..) results observed")
+    rep.cov["rule"] += ' + macro-assembled discriminants (top level and nested in parentheses); 256 variants on repr(u8), 300 on repr(u16), 200 on repr(i8) from -100'
+    rep.cov["rule"] += COMMON_DIMENSIONS
     rep.cov["samples"] = [dict(def_=e["def"], ty=e["ty"], hits=e["hits"][:6]) for e in sw[:3]]
     rep.assumptions += ["discriminants near a type's MIN/MAX are logged relative to an anchor: Discr and FromReprSpec are translation invariant",
                         "probe values farther than 2^30 from the anchor are logged by class (big); all declared discriminants are within 2^30 of it"]
